@@ -145,6 +145,20 @@ def classify(v):
 
 
 HANG_S = 120   # one input of at most a few KiB; the slowest observed needs milliseconds
+# a fuzz shard answers within seconds; its own watchdog is shorter than the general one so that a change which makes *many*
+# inputs hang still gets its verdict in minutes. Once one shard has confirmed a hang (single input, HANG_S), the others
+# still confirm their own, with shorter waits.
+FUZZ_WATCHDOG = int(os.environ.get("VERIF_C03_WATCHDOG", "300"))
+
+
+def _hang_flag():
+    return os.path.join(core.BUILD, "tmp", "hang-confirmed-" + core.RUN_ID)
+
+
+def _waits():
+    if os.path.exists(_hang_flag()):
+        return 60, 30, 30
+    return FUZZ_WATCHDOG, max(30, FUZZ_WATCHDOG // 2), HANG_S
 
 
 def _fuzz_job(st, job):
@@ -152,6 +166,7 @@ def _fuzz_job(st, job):
     res = core.Result("C03", "", 0)
     h = core.Harness(st[variant].binary, stack_kb=stack_kb)
     h.ignore_watchdog_flag = True   # every shard is examined on its own (a hang is this property's subject)
+    h.call_timeout, trace_s, hang_s = _waits()
     args = [seed, start, count, maxlen]
     try:
         r = h.json("fuzz", args, payload)
@@ -159,7 +174,7 @@ def _fuzz_job(st, job):
         # abort / stack overflow / OOM: find the culprit index with a traced re-run, then regenerate its input
         req = (" ".join(["fuzz"] + [str(a) for a in args] + ["trace", str(len(payload))]) + "\n").encode() + payload
         try:
-            p = subprocess.run([st[variant].binary], input=req, capture_output=True, timeout=core.CALL_TIMEOUT)
+            p = subprocess.run([st[variant].binary], input=req, capture_output=True, timeout=trace_s if e.rc == "watchdog" else core.CALL_TIMEOUT)
             err = p.stderr
         except subprocess.TimeoutExpired as te:
             err = te.stderr or b""
@@ -178,10 +193,15 @@ def _fuzz_job(st, job):
             g = gh.json("fuzz", [seed, idx, 1, maxlen, "gen"], payload)
             one = (" ".join(["fuzz", str(seed), str(idx), "1", str(maxlen), "only", str(len(payload))]) + "\n").encode() + payload
             try:
-                subprocess.run([st[variant].binary], input=one, capture_output=True, timeout=HANG_S)
+                subprocess.run([st[variant].binary], input=one, capture_output=True, timeout=hang_s)
                 res.inconclusive.append("fuzz shard did not answer within the watchdog, but input %d alone finishes (overloaded machine?)" % idx)
             except subprocess.TimeoutExpired:
-                res.add("unlisted:hang", {"index": idx, "variant": variant, "seconds": HANG_S, "bytes": len(g["only_input"]) // 2,
+                try:
+                    os.makedirs(os.path.dirname(_hang_flag()), exist_ok=True)
+                    open(_hang_flag(), "w").close()
+                except OSError:
+                    pass
+                res.add("unlisted:hang", {"index": idx, "variant": variant, "seconds": hang_s, "bytes": len(g["only_input"]) // 2,
                                           "input": bytes.fromhex(g["only_input"]).decode("utf-8", "replace")[:200]},
                         {"op": "fuzz", "variant": variant, "args": args, "index": idx, "input_hex": g["only_input"], "mode": g["only_mode"], "offset": g["only_offset"]})
             return res
